@@ -313,6 +313,13 @@ func checkC01(sc *Scenario) *CheckResult {
 				hb := m.ProtoReflect().Get(fd).Message()
 				data = append(data, hb.Get(hb.Descriptor().Fields().ByName("data")).Bytes()...)
 			}
+			if !cv.OK {
+				// a failed RPC may have handed the backend a prefix of the upload only
+				ghb := gotReq[0].ProtoReflect().Get(fd).Message()
+				if got := ghb.Get(ghb.Descriptor().Fields().ByName("data")).Bytes(); len(got) < len(data) && string(data[:len(got)]) == string(got) {
+					data = got
+				}
+			}
 			hb := merged.ProtoReflect().Mutable(fd).Message()
 			hb.Set(hb.Descriptor().Fields().ByName("data"), protoreflect.ValueOfBytes(data))
 			sent = []proto.Message{merged}
